@@ -254,8 +254,47 @@ def _install_audit(events):
 EVENT_FILE = ".events-of-crashed-child"
 
 
+MSG_RES = [(re.compile(r'^Declaring directory (.*) as (\S+) (\S+)(?: (\S+))? in (.*)$'), "declaring"),
+           (re.compile(r'^Assigning tag "(\S+)" to '), "assigning"),
+           (re.compile(r'^eups undeclare --tag (\S+) (\S+)'), "untag"),
+           (re.compile(r'^Removing (\S+) (\S+) from version list for (.*)$'), "removing"),
+           (re.compile(r'^rm -rf (.*)$'), "rmrf")]
+
+
+def parse_would(world, text):
+    """the 'would do' messages of a dry run, in order, in the model's vocabulary"""
+    out = []
+    for line in text.splitlines():
+        line = line.strip()
+        for rx, kind in MSG_RES:
+            m = rx.match(line)
+            if not m:
+                continue
+            if kind == "declaring":
+                st = world.stacks.index(m.group(5)) if m.group(5) in world.stacks else m.group(5)
+                out.append(["declaring", st, m.group(4)])
+            elif kind == "assigning":
+                out.append(["assigning", m.group(1)])
+            elif kind == "untag":
+                out.append(["untag", m.group(1)])
+            elif kind == "removing":
+                st = world.stacks.index(m.group(3)) if m.group(3) in world.stacks else m.group(3)
+                out.append(["removing", m.group(2), st])
+            else:
+                out.append(["rmrf", world.canon_path(m.group(1))])
+            break
+    return out
+
+
 def _child_command(world, cmd, probe=None):
-    _quiet_fds()
+    msgfile = None
+    if cmd.get("noaction"):
+        msgfile = os.path.join(world.root, ".dry-run-output")
+        fd = os.open(msgfile, os.O_WRONLY | os.O_CREAT | os.O_TRUNC, 0o600)
+        os.dup2(fd, 1)
+        os.dup2(fd, 2)
+    else:
+        _quiet_fds()
     os.environ["EUPS_PATH"] = ":".join(world.stacks)
     os.environ["EUPS_USERDATA"] = world.uds[cmd.get("user", "A")]
     events = []
@@ -298,6 +337,12 @@ def _child_command(world, cmd, probe=None):
         exc = (type(ex).__name__, str(ex)[:300])
     out = {"loaded": loaded, "view": view, "ret": None if ret is None else bool(ret),
            "events": [x for x in events if x], "exc": exc}
+    if msgfile:
+        import sys
+        sys.stdout.flush()
+        sys.stderr.flush()
+        with open(msgfile) as fh:
+            out["would"] = parse_would(world, fh.read())
     if probe and exc is None:
         out["probe"] = probe(world, e)
     return out
@@ -529,6 +574,8 @@ def run_history(case, hash_noaction=True, probe=None, world_hook=None):
                     if "loaded" in info:
                         rec["loaded"] = info["loaded"]
                         rec["view"] = info.get("view")
+                    if "would" in info:
+                        rec["would"] = info["would"]
                     if "probe" in info:
                         rec["probe"] = info["probe"]
                     if info.get("detail") and out.startswith("Other"):
@@ -587,7 +634,7 @@ def model_steps(ans):
         fl = st.get("files") or {"vfiles": [], "cfiles": [], "abs": {"decls": [], "tags": []}}
         out.append({"out": st["out"], "crashed": st["crashed"], "loaded": [sorted(x) for x in st["flavs"]],
                     "db": canon_spec(st["db"]), "view": canon_spec(st["view"]), "trace": st["trace"],
-                    "caches": st["caches"],
+                    "caches": st["caches"], "would": st.get("would", []),
                     "raw": {"vfiles": sorted(fl["vfiles"]), "cfiles": sorted(fl["cfiles"])},
                     "files_abs": canon_spec(fl["abs"])})
     return out
